@@ -27,7 +27,7 @@ use temporal_rs::time::EpochNanoseconds;
 use temporal_rs::tzdb::FsTzdbProvider;
 use temporal_rs::*;
 
-pub const N_OPS: u16 = 119;
+pub const N_OPS: u16 = 120;
 
 #[derive(Serialize, Deserialize, Debug, Clone)]
 pub enum ZoneArg {
@@ -786,6 +786,41 @@ pub fn run_op(c: &Case) -> R {
                 r(md.to_plain_date()),
             ])
         }
+        118 => {
+            // the `From` / `TryFrom` conversions between the public types, and what their results can then be used for
+            let d = okk!(d1.with_calendar(c1));
+            let p = PlainDateTime::from(d.clone());
+            let _ = (p.year(), p.month_code(), p.day(), p.day_of_week(), p.hour(), p.to_string(), p.to_ixdtf_string(sopts(a), dcal(a.display)).is_ok());
+            let back = PlainDate::from(p.clone());
+            let _ = (back.to_string(), PlainTime::from(p.clone()).to_ixdtf_string(sopts(a)).is_ok());
+            let _ = (Calendar::from(d.clone()).identifier(), Calendar::from(p.clone()).identifier());
+            if let Ok(z) = ZonedDateTime::try_new(a.inst1, Calendar::default(), tz.clone()) {
+                let _ = (TimeZone::from(&z).identifier(), Calendar::from(z).identifier());
+            }
+            let _ = (temporal_rs::Sign::from(a.h as i8), temporal_rs::time::EpochNanoseconds::try_from(a.inc_f).is_ok(), temporal_rs::time::EpochNanoseconds::try_from(a.raw_ns as u128).is_ok());
+            if let Ok(e) = temporal_rs::time::EpochNanoseconds::try_from(a.raw_ns) {
+                let i = Instant::from(e);
+                let _ = (i.epoch_milliseconds(), i.as_i128());
+            }
+            let from_parts = match (TimeDuration::new(ff(a.f[4]), ff(a.f[5]), ff(a.f[6]), ff(a.f[7]), ff(a.f[8]), ff(a.f[9])), DateDuration::new(ff(a.f[0]), ff(a.f[1]), ff(a.f[2]), ff(a.f[3]))) {
+                (Ok(t), Ok(dd)) => {
+                    let (x, y) = (Duration::from(t), Duration::from(dd));
+                    let _ = (x.to_string(), y.to_string(), x.sign(), y.sign());
+                    first_err(vec![r(x.add(&y)), r(d1.add(&y, None)), r(t1.add(&x))])
+                }
+                _ => R::Ok,
+            };
+            first_err(vec![
+                match from_parts {
+                    R::Ok => r(Ok::<(), TemporalError>(())),
+                    other => return other,
+                },
+                r(duration_from_dur(&a.dur1).and_then(|x| p.add(&x, ov_opt(a.overflow)))),
+                r(p.round(some!(ropts(a)))),
+                r(p.until(&p, some!(settings(a)))),
+                r(p.with_time(t1)),
+            ])
+        }
         _ => {
             // Display impls
             let p = okk!(PlainDateTime::from_date_and_time(okk!(d1.with_calendar(c1)), t1));
@@ -847,7 +882,7 @@ impl SubCheck for Sub {
     }
 }
 
-const OP_CLASS: [&str; 119] = [
+const OP_CLASS: [&str; 120] = [
     "PlainDate::new", "PlainDate::try_new", "PlainDate::new_with_overflow", "PlainDate::from_partial", "PlainDate::with", "PlainDate::add(raw)", "PlainDate::subtract(raw)", "PlainDate::add",
     "PlainDate::until", "PlainDate::since", "PlainDate::getters", "PlainDate::to_*", "PlainDate::to_string", "PlainDate::to_zoned", "PlainDate::from_str", "PlainDate::non-iso-arith",
     "PlainDateTime::new", "PlainDateTime::try_new", "PlainDateTime::new_with_overflow", "PlainDateTime::from_date_and_time", "PlainDateTime::from_partial", "PlainDateTime::with",
@@ -863,7 +898,7 @@ const OP_CLASS: [&str; 119] = [
     "ZonedDateTime::chain", "Now::with_system_info", "Calendar::from_str", "Calendar::from_utf8", "MonthCode::parse", "TimeZone::parse", "UtcOffset::parse", "enums::from_str",
     "RelativeTo::from_str", "options::helpers", "FsTzdbProvider::raw", "Calendar::*_from_partial", "Calendar::misc", "chain:zoned-string", "chain:date-add-until-add", "chain:datetime-round-until",
     "chain:instant-round-since", "chain:duration-round-total", "chain:date-string-reparse", "chain:duration-string-reparse", "capi::PlainDate", "capi::Instant", "capi::Duration", "options::to_string",
-    "limits:PlainDate", "limits:PlainDateTime", "limits:Instant", "limits:ZonedDateTime", "real-zones:zoned", "real-zones:wall", "limits:PlainTime", "limits:PlainYearMonth", "Default::default()", "Display",
+    "limits:PlainDate", "limits:PlainDateTime", "limits:Instant", "limits:ZonedDateTime", "real-zones:zoned", "real-zones:wall", "limits:PlainTime", "limits:PlainYearMonth", "Default::default()", "From/TryFrom", "Display",
 ];
 
 // ------------------------------------------------------------------------------------------
